@@ -67,14 +67,14 @@ TAGS = {
     "cb:after": {"C11", "C02"},
     "loop.wait": {"C01", "C02", "C05", "C06", "C07", "C12", "C03", "C11", "C18"},
     "loop.wrote": {"C01", "C08", "C12", "C07"},
-    "eff.spawn": {"C11", "C12", "C07"},
+    "eff.spawn": {"C11", "C12", "C07", "C02"},      # C02: a follow-up action takes its place in the queue like any dispatch
     "loop.recv": {"C01", "C02", "C05", "C06", "C07"},
     "red.begin": {"C07", "C12"},
     "mw.check": {"C07", "C12"},
     "ntf.snap": {"C03", "C07", "C09", "C12", "C10", "C14"},
     "clear.begin": {"C04", "C09", "C13", "C15", "C06", "C05"},
     "loop.end": {"C04", "C09", "C13", "C15", "C10", "C14"},
-    "task.start": {"C11"},
+    "task.start": {"C11", "C02"},
     "task.end": {"C11"},
     "ch.txlock": {"C10", "C09", "C13"},
     "ch.join": {"C10", "C09", "C13"},
@@ -196,6 +196,17 @@ def attribute(ctx, reason, r):
             tg = tg | {"C01", "C08", "C03"}
         if e.get("t") != g.get("t"):
             tg = tg | {"C07", "C10", "C11"}     # a callback on the wrong thread
+    if isinstance(e, dict) and isinstance(g, dict) and e.get("notes") != g.get("notes"):
+        # what happened silently before this event differs: a job handed to the pool (or not), an item taken
+        kinds = {n.get("k") for n in (e.get("notes") or []) + (g.get("notes") or []) if isinstance(n, dict)}
+        if kinds & {"submit", "skip"}:
+            tg = tg | {"C11", "C02", "C12"}
+        if "recv" in kinds:
+            tg = tg | {"C01", "C02", "C05", "C06"}
+        if "took" in kinds:
+            tg = tg | {"C04", "C15", "C11"}
+        if "chrecv" in kinds:
+            tg = tg | {"C10"}
     if reason in ("blocked", "hangs where the model finishes", "finishes where the model deadlocks"):
         tg = tg | {"C13"}
     if isinstance(r.get("got"), str) and "unexpected thread" in r["got"]:
@@ -325,8 +336,21 @@ def do_gen(ctx, inst, limit):
         jb = [cover.to_json(g, b, i) for i, b in enumerate(behs)]
         # blocked probes: a few states per kind of operation that must wait
         pr = cover.probes(g, per_kind=1 if ctx.tier == "quick" else 3, max_total=8 if ctx.tier == "quick" else 40)
-        pj = [cover.probe_json(g, b, "p%d" % i, 1500 if (b["probe"]["what"].startswith("send:") and i < 2) else 250)
-              for i, b in enumerate(pr)]
+        # a blocking send is watched for 1.5 s (one probe per channel, at most three of them), everything else for 250 ms
+        long_for = []
+        for b in pr:
+            w = b["probe"]["what"]
+            if w.startswith("send:") and w not in long_for and len(long_for) < 3:
+                long_for.append(w)
+        seen_long = set()
+        pj = []
+        for i, b in enumerate(pr):
+            w = b["probe"]["what"]
+            ms = 250
+            if w in long_for and w not in seen_long:
+                seen_long.add(w)
+                ms = 1500
+            pj.append(cover.probe_json(g, b, "p%d" % i, ms))
         if pj:
             pres, ppath, ptr = replay_behaviours(inst, pj, d, "probes")
             ctx.replayed += len(pres)
